@@ -34,6 +34,12 @@ fn filters(tier: Tier) -> Vec<(String, Vec<Vec<f64>>)> {
         ("asym3".into(), vec![vec![0.2, 0.5, 0.3]]),
         ("ramp5".into(), vec![vec![0.1, 0.2, 0.4, 0.2, 0.1]]),
         ("alt3".into(), vec![vec![0.2, 0.5, 0.3], vec![0.0, 0.0, 0.0], vec![1.0 / 3.0; 3]]),
+        // taps that are exactly 0 or 1 in places where a shortcut might look: a unit centre tap between other taps and zero
+        // ends, a padded impulse, ones at both ends with a zero centre, an impulse in the last tap
+        ("unitcentre5".into(), vec![vec![0.0, 0.3, 1.0, -0.2, 0.0]]),
+        ("delta5".into(), vec![vec![0.0, 0.0, 1.0, 0.0, 0.0]]),
+        ("ends5".into(), vec![vec![1.0, 0.0, 0.0, 0.25, 1.0]]),
+        ("tail3".into(), vec![vec![0.0, 0.0, 1.0], vec![1.0, 0.0, 0.0]]),
     ];
     if tier == Tier::Thorough {
         f.push(("zero1".into(), vec![vec![0.0]]));
@@ -48,7 +54,7 @@ fn filters(tier: Tier) -> Vec<(String, Vec<Vec<f64>>)> {
 
 pub fn run(tier: Tier) -> i32 {
     let rep = Report::new("C07", tier, "model_checking");
-    rep.set_rule("SCOPE: per (rate in {8k,16k,48k,96k}) x (frame period in {40,80,81,240,480}): all 512 frame triples over {unvoiced, F0 in {20,55.3,123.4,440,rate/2,10(clamps to 20),30k(clamps to 20k)} Hz} followed by the first two symbols in reverse order and 18 repetitions of the third; filters: none plus the listed odd-length low-pass sets (constant and changing per frame); real Vocoder with zero spectrum; oracle: pulse height^2 = linearly gliding period, stationary spacing floor/ceil(T0), unit mean power, unvoiced samples bit-equal to the reference noise run (which is the same stream for frame periods 1, 40, 81, 162, 405 and 3240), LPF output = h*pulses + (delta-h)*noise; a slice longer than the frame period gives the same frame and is not written behind it (both filter families); log-F0 values far outside the range (2, 0, -5, the doubles next to the no-data marker, -2e10, -1e300, f64::MIN, -inf; 10, 700, 1e10, 1e300, f64::MAX, +inf) rendered bit-identically to the 20 Hz / 20 kHz limit itself; two vocoders (all pairs of 6 rate/period/low-pass configurations) stepped alternately on one thread produce what each produces alone; distinct = (cell, triple, filter); non-trivial = contains a voiced frame");
+    rep.set_rule("SCOPE: per (rate in {8k,16k,48k,96k}) x (frame period in {40,80,81,240,480}): all 512 frame triples over {unvoiced, F0 in {20,55.3,123.4,440,rate/2,10(clamps to 20),30k(clamps to 20k)} Hz} followed by the first two symbols in reverse order and 18 repetitions of the third; filters: none plus the listed odd-length low-pass sets (constant and changing per frame; incl. sets whose taps are exactly 0 or 1 at the centre or the ends); real Vocoder with zero spectrum; oracle: pulse height^2 = linearly gliding period, stationary spacing floor/ceil(T0), unit mean power, unvoiced samples bit-equal to the reference noise run (which is the same stream for frame periods 1, 40, 81, 162, 405 and 3240), LPF output = h*pulses + (delta-h)*noise; a slice longer than the frame period gives the same frame and is not written behind it (both filter families); log-F0 values far outside the range (2, 0, -5, the doubles next to the no-data marker, -2e10, -1e300, f64::MIN, -inf; 10, 700, 1e10, 1e300, f64::MAX, +inf) rendered bit-identically to the 20 Hz / 20 kHz limit itself; two vocoders (all pairs of 6 rate/period/low-pass configurations) stepped alternately on one thread produce what each produces alone; distinct = (cell, triple, filter); non-trivial = contains a voiced frame");
     rep.assume("F0 values on the 7-point lattice; T0 is an exact integer for no lattice point (first inter-pulse interval after an onset is ceil(T0)-1 = floor(T0))");
     let rates = [8000usize, 16000, 48000, 96000];
     let fps = [40usize, 80, 81, 240, 480];
